@@ -12,7 +12,7 @@ import (
 func init() {
 	register(Property{
 		ID:          "C18",
-		Explanation: "Decided statically on constants and literals: T1/T2 the partialstruct templates are fully bound and their skeletons parse (the field template as a struct field list); C17.R1 the generated DeepCopyAs starts with the nil guard; T3 struct-tag and doc text reach the generated struct only behind Comment, as a quoted literal, or - tags - verbatim between the template's backquotes, never through snippet.ID (a reference parser that splits at '.'); R1 the rendering call is dominated by the struct assertion having succeeded and the origin being known, and both failure edges return a non-nil fmt.Errorf; R2 the field list and the copy body skip exactly the same fields (same Omit map, same key f.Name()), fields are emitted in index order over the struct's own NumFields(), and the field type is rendered by ID(f.Type()) (type printer, imports registered); R4 the origin is taken from the declaration spec whose name matches the generated type (no last-wins over a grouped declaration). R3 the obligations of the shared field-copy helper (C17.R3/R7) hold; R5 no schedule-dependent order source in the generator. R2 also: every store into the Omit set stores the constant true (the field list tests presence, the copy body the value); R6 the import block binds every registered package under the name the rendered field types use (C03.R2's printer rule). R1 accepts any newly made error; R7 the error GenerateType returns reaches the result of Execute (C02.R4/R5); R8 the generated file is replaced as a whole (C01.R1). R9 field types are rendered structurally with element types through the printer (C11.R1); R10 effective tags are merged into a fresh map per declaration (C06.R3). R11 the copy helper uses the field context of the field at hand (C17.R12); R12 tag key/value split at the first '=' or space (C12.R4). R13 import names are bound only when free and always committed (C03.R4/R6); R14 ID renders go/types types through the type-literal printer only (C11.R4). R15 = C09.R7 (a snippet is skipped only when it holds nothing); R16 = C13.R3 (the imports of every registered package are followed). NOT decided: that the compiled struct equals origin minus omitted fields and the copy semantics (needs compilation/execution). Round 8: R17 = C17.R9 (the shared copy helper gives every field a copy statement), R18 = C06.R9 (a package is processed with the generators it was given).",
+		Explanation: "Decided statically on constants and literals: T1/T2 the partialstruct templates are fully bound and their skeletons parse (the field template as a struct field list); C17.R1 the generated DeepCopyAs starts with the nil guard; T3 struct-tag and doc text reach the generated struct only behind Comment, as a quoted literal, or - tags - verbatim between the template's backquotes, never through snippet.ID (a reference parser that splits at '.'); R1 the rendering call is dominated by the struct assertion having succeeded and the origin being known, and both failure edges return a non-nil fmt.Errorf; R2 the field list and the copy body skip exactly the same fields (same Omit map, same key f.Name()), fields are emitted in index order over the struct's own NumFields(), and the field type is rendered by ID(f.Type()) (type printer, imports registered); R4 the origin is taken from the declaration spec whose name matches the generated type (no last-wins over a grouped declaration). R3 the obligations of the shared field-copy helper (C17.R3/R7) hold; R5 no schedule-dependent order source in the generator. R2 also: every store into the Omit set stores the constant true (the field list tests presence, the copy body the value); R6 the import block binds every registered package under the name the rendered field types use (C03.R2's printer rule). R1 accepts any newly made error; R7 the error GenerateType returns reaches the result of Execute (C02.R4/R5); R8 the generated file is replaced as a whole (C01.R1). R9 field types are rendered structurally with element types through the printer (C11.R1); R10 effective tags are merged into a fresh map per declaration (C06.R3). R11 the copy helper uses the field context of the field at hand (C17.R12); R12 tag key/value split at the first '=' or space (C12.R4). R13 import names are bound only when free and always committed (C03.R4/R6); R14 ID renders go/types types through the type-literal printer only (C11.R4). R15 = C09.R7 (a snippet is skipped only when it holds nothing); R16 = C13.R3 (the imports of every registered package are followed). NOT decided: that the compiled struct equals origin minus omitted fields and the copy semantics (needs compilation/execution). Round 8: R17 = C17.R9 (the shared copy helper gives every field a copy statement), R18 = C06.R9 (a package is processed with the generators it was given). Round 9: R19 the origin stored for a partial struct is the checker's object for the identifier the declaration wrote.",
 		Assumptions: commonAssumptions,
 		Run:         runC18,
 	})
